@@ -63,6 +63,7 @@ def body(ctx):
     ctx.extra['process_paths'] = npaths
     inductive_frame_condition(ctx, prog, ex)
     consumer_queue_kind(ctx, prog)
+    segmentation_steps(ctx, prog)
     VAL.run()
 
 
@@ -235,6 +236,45 @@ def inductive_frame_condition(ctx, prog, ex):
     ctx.extra['frame_condition_paths'] = n
 
 
+def segmentation_steps(ctx, prog):
+    """'however the byte stream is segmented': the inductive read-loop steps of C06 are part of this property too"""
+    import c06
+    viol = []
+    for k in (1, 2):
+        c06.iterations(ctx, prog, k, viol)
+    if viol:
+        ctx.report('segmentation-dependent-decoding', f"{len(viol)} read-loop step obligations violated, e.g. {str(viol[0])[:200]}", {'solver_counterexamples': [str(v)[:300] for v in viol[:4]]}, c06.NATIVE_DIFF,
+                   inject_into='src/frame_buffer.rs', profiles=('dev',), hang_is_violation=True, panic_is_violation=True)
+
+
+NATIVE_BACKLOG = r'''
+use super::*;
+use super::connection_state::ConnectionState;
+use amq_protocol::frame::{AMQPFrame, AMQPContentHeader};
+use amq_protocol::protocol::{AMQPClass, basic};
+#[test]
+fn verif_replay_c03_backlog() {
+    // a consumer that never drains its queue must not disturb the connection: 70000 undrained deliveries
+    let mut inner = Inner::new(HeartbeatTimers::default(), 16);
+    inner.chan_slots.set_channel_max(10);
+    let (ch0, _h0) = Channel0Slot::new(16);
+    let (slot, _h) = ChannelSlot::new(16, 1);
+    inner.chan_slots.insert(Some(1), |_| Ok((slot, ()))).unwrap();
+    let reply_rx = { let (tx, rx) = crossbeam_channel::bounded(2); inner.chan_slots.get_mut(1).unwrap().tx = tx; rx };
+    let mut state = ConnectionState::Steady(ch0);
+    state.process(&mut inner, AMQPFrame::Method(1, AMQPClass::Basic(basic::AMQPMethod::ConsumeOk(basic::ConsumeOk { consumer_tag: "t".into() })))).unwrap();
+    let _consumer_rx = match reply_rx.try_recv() { Ok(Ok(ChannelMessage::ConsumeOk(_, rx))) => rx, _ => panic!("setup") };
+    let mut bad = None;
+    for i in 0..70000u64 {
+        let r1 = state.process(&mut inner, AMQPFrame::Method(1, AMQPClass::Basic(basic::AMQPMethod::Deliver(basic::Deliver { consumer_tag: "t".into(), delivery_tag: i, redelivered: false, exchange: "".into(), routing_key: "".into() }))));
+        let r2 = state.process(&mut inner, AMQPFrame::Header(1, 60, Box::new(AMQPContentHeader { class_id: 60, weight: 0, body_size: 0, properties: Default::default() })));
+        if r1.is_err() || r2.is_err() { bad = Some(i); break; }
+    }
+    match bad { None => println!("VERIF-REPLAY-OK"), Some(i) => println!("VERIF-REPLAY-VIOLATION slow-consumer-stalls-connection delivery={}", i) }
+}
+'''
+
+
 def consumer_queue_kind(ctx, prog):
     """a slow consumer cannot block the I/O thread: consumer queues are created unbounded and written with try_send"""
     ex = io_executor(ctx, prog)
@@ -250,7 +290,8 @@ def consumer_queue_kind(ctx, prog):
         blocking = any('Sender::<.*>::send$' in k for k in used if 'ConsumerMessage' in k)
         m = ctx.decide('c03.consumer-queue-unbounded', s.pc, z3.BoolVal(ok and not blocking), group='consumer queues are unbounded and written without blocking (a slow consumer delays nobody)')
         if m is not None:
-            ctx.inconclusive.append('consumer queue is not unbounded / written with a blocking send')
+            ctx.report('slow-consumer-stalls-connection', 'the consumer queue is bounded or written with a blocking send: an undrained consumer can stall or fail the I/O thread', {'queue_capacity': str(chans[0].cap) if chans else None},
+                       NATIVE_BACKLOG, inject_into='src/io_loop/mod.rs', profiles=('dev',), hang_is_violation=True, panic_is_violation=True)
 
 
 if __name__ == '__main__':
